@@ -13,7 +13,7 @@
        C06 soundness theorems). *)
 From V Require Import Base.Prelude Base.Ints Model.Helper Model.Script Model.Op Model.Interp
   Model.Pecc Model.Taproot Model.Verify Model.Tx Model.Sighash Model.SighashSig
-  Spec.SigHashType Proofs.SighashP Proofs.SighashHistP Proofs.SighashDispatchP Proofs.SighashSigP
+  Spec.TxData Spec.SigHashType Proofs.SighashP Proofs.SighashHistP Proofs.SighashDispatchP Proofs.SighashSigP
   Proofs.VerifyP Proofs.VerifyNestedP Proofs.SighashKindsP.
 
 (* ------------------------------------------------------------------ (1) what the digests read *)
@@ -153,7 +153,7 @@ Proof.
   destruct (if negb (ht_acp ht) then hash_prevouts hash256 t' m else Ok (m, zero32)) as [[m1 hp]|];
     cbn [bind]; [|reflexivity].
   rewrite Hs.
-  destruct (if negb (ht_acp ht) && negb (ht_none_or_single ht) then hash_sequence hash256 t' m1
+  destruct (if negb (ht_acp ht) && negb (ht_none_or_single5 ht) then hash_sequence hash256 t' m1
             else Ok (m1, zero32)) as [[m2 hs]|]; cbn [bind]; [|reflexivity].
   destruct (int_to_le (i_prev_index ti') 4); cbn [bind]; [|reflexivity].
   destruct (bip143_script_code _ _ _); cbn [bind]; [|reflexivity].
@@ -252,6 +252,13 @@ End Core.
 
 Lemma rsnd_ok {A B} (r : result (A * B)) b : rsnd r = Ok b -> exists a, r = Ok (a, b).
 Proof. unfold rsnd. destruct r as [[a b']|]; cbn [bind]; [intros [= ->]; eauto|discriminate]. Qed.
+
+Lemma std_explicit ht :
+  standard_hash_type ht = true -> (ht =? 0) = false -> taproot_explicit_hash_type ht = true.
+Proof.
+  intros H. apply std_cases in H. destruct H as [->|[->|[->|[->|[->|[->| ->]]]]]]; intros E;
+    try reflexivity; discriminate E.
+Qed.
 
 Section Agree.
 Variables hash256 sha256 hash_tapsighash hash_tapleaf : bytes -> bytes.
@@ -477,6 +484,7 @@ Qed.
 Theorem signed_p2tr_keypath_checked t sp idx m ti s x secret ht aux sg :
   nth_error (t_ins t) idx = Some ti -> nth_error sp idx = Some s ->
   sp_script s = mk_script (p2tr_script x) -> length x = 32%nat -> has_annex (i_witness ti) = false ->
+  standard_hash_type ht = true ->
   get_sig_taproot sha256 hash_tapsighash hash_tapleaf xonly_ok pr t sp idx m secret 0 ht aux = Ok sg ->
   exists p msg s64,
     rsnd (sig_hash_bip341 sha256 hash_tapsighash hash_tapleaf xonly_ok t sp idx 0 ht m) = Ok (p, msg) /\
@@ -488,20 +496,20 @@ Theorem signed_p2tr_keypath_checked t sp idx m ti s x secret ht aux sg :
        op_checksig_schnorr (SIGOPS t' sp idx m') (pk :: sg :: r) =
        (b <- pr_schnorr pr pk s64 (DBytes msg) ;; Ok (enc_bool b :: r))).
 Proof.
-  intros Eti Es Hspk Hx Hna Hg.
+  intros Eti Es Hspk Hx Hna Hstd Hg.
   destruct (get_sig_taproot_inv _ _ _ _ _ _ _ _ _ Hg) as (p & msg & s64 & Hz & Hs & Hsg & Hr).
   exists p, msg, s64. repeat split; try assumption.
   - (* the BIP341 reading of the signature *)
     unfold taproot_sig_hash_type. rewrite Hsg. destruct (ht =? 0) eqn:E0.
     + apply Z.eqb_eq in E0. subst ht. rewrite H. reflexivity.
-    + rewrite app_length, H. cbn [length Nat.add Nat.eqb]. rewrite last_app_one, E0, removelast_app_one.
-      reflexivity.
+    + rewrite app_length, H. cbn [length Nat.add Nat.eqb].
+      rewrite last_app_one, (std_explicit ht Hstd E0), removelast_app_one. reflexivity.
   - intros t' ti' m' pk r Hc Eti' Hw Hpk.
     assert (Hty : taproot_sig_hash_type sg = Some (s64, ht)).
     { unfold taproot_sig_hash_type. rewrite Hsg. destruct (ht =? 0) eqn:E0.
       + apply Z.eqb_eq in E0. subst ht. rewrite H. reflexivity.
-      + rewrite app_length, H. cbn [length Nat.add Nat.eqb]. rewrite last_app_one, E0, removelast_app_one.
-        reflexivity. }
+      + rewrite app_length, H. cbn [length Nat.add Nat.eqb].
+        rewrite last_app_one, (std_explicit ht Hstd E0), removelast_app_one. reflexivity. }
     rewrite (op_checksig_schnorr_own_digest _ _ _ _ _ _ _ _ _ _ _ _ s64 ht r Hpk Hty).
     unfold fresh_digest.
     rewrite (tx_digest_of_sig_hash _ _ _ _ _ t' sp idx ht memo_empty memo_empty _
@@ -661,7 +669,7 @@ Qed.
 Theorem sign_p2tr_keypath_accepts t sp idx m ti s x secret ht aux sg :
   nth_error (t_ins t) idx = Some ti -> nth_error sp idx = Some s ->
   sp_script s = mk_script (p2tr_script x) -> length x = 32%nat -> xonly_ok x = true ->
-  has_annex (i_witness ti) = false -> s_cmds (i_script ti) = [] ->
+  has_annex (i_witness ti) = false -> s_cmds (i_script ti) = [] -> standard_hash_type ht = true ->
   get_sig_taproot sha256 hash_tapsighash hash_tapleaf xonly_ok pr t sp idx m secret 0 ht aux = Ok sg ->
   (forall p msg s64,
      rsnd (sig_hash_bip341 sha256 hash_tapsighash hash_tapleaf xonly_ok t sp idx 0 ht m) = Ok (p, msg) ->
@@ -671,12 +679,12 @@ Theorem sign_p2tr_keypath_accepts t sp idx m ti s x secret ht aux sg :
     t sp idx m secret ht aux =
   Ok (tx_upd_in t idx (finalize_p2tr_keypath sg), OTrue).
 Proof.
-  intros Eti Es Hspk Hx Hxok Hna Hss Hg Hprim.
+  intros Eti Es Hspk Hx Hxok Hna Hss Hstd Hg Hprim.
   destruct (signed_p2tr_keypath_checked hash256 sha256 hash_tapsighash hash_tapleaf xonly_ok pr
-              t sp idx m ti s x secret ht aux sg Eti Es Hspk Hx Hna Hg)
+              t sp idx m ti s x secret ht aux sg Eti Es Hspk Hx Hna Hstd Hg)
     as (p & msg & s64 & Hz & Hs & Hsg & Hop).
   destruct (Hprim p msg s64 Hz Hs) as [Hlen Hver]. destruct (Hop Hlen) as [Hty Hchk]. clear Hop.
-  destruct (schnorr_split_bip341 sg s64 ht Hty) as [Hsplit Hne].
+  destruct (schnorr_split_bip341 sg s64 ht Hty) as (Hsplit & Hne & Hform).
   unfold sign_p2tr_keypath, in_range. rewrite Hg, Eti. cbn [bind].
   set (t' := tx_upd_in t idx (finalize_p2tr_keypath sg)).
   assert (Hc : same_core t t') by (apply same_core_upd; intros i; repeat split).
@@ -684,7 +692,7 @@ Proof.
   unfold tx_verify_input. rewrite Eti', Es. cbn [bind]. rewrite Hspk.
   cbn [finalize_p2tr_keypath in_with_wit i_script i_witness i_sequence s_cmds mk_script]. rewrite Hss.
   rewrite (p2tr_keypath_complete C ripemd160 sha1 sha256 hash160 hash256 (SIGOPS t' sp idx m) _ x sg Hx Hne);
-    [reflexivity|exact Hxok|].
+    [reflexivity|exact Hxok|exact Hform|].
   rewrite Hsplit. cbn [fst snd so_schnorr tx_sigops].
   rewrite tx_schnorr_fresh. unfold fresh_digest.
   rewrite (tx_digest_of_sig_hash _ _ _ _ _ t' sp idx ht memo_empty memo_empty _
@@ -737,7 +745,7 @@ Theorem verify_input_p2tr_keypath_sound t sp idx m ti s x sg :
   sp_script s = mk_script (p2tr_script x) -> length x = 32%nat ->
   annex_stripped (i_witness ti) = [sg] ->
   VERIFY t sp idx m = Ok OTrue ->
-  sg <> [] /\ xonly_ok x = true /\
+  sg <> [] /\ xonly_ok x = true /\ schnorr_form_ok sg = true /\
   exists d, FRESH t sp idx (snd (schnorr_split sg)) = Ok d /\
             pr_schnorr pr x (fst (schnorr_split sg)) d = Ok true.
 Proof.
@@ -745,8 +753,8 @@ Proof.
   intros [= H].
   destruct (p2tr_sound C ripemd160 sha1 sha256 hash160 hash256 _ _ _ _ x Hx H) as (_ & _ & Hd).
   cbv zeta in Hd. rewrite Hitems in Hd.
-  destruct Hd as [(sg' & Hsg & Hne & Hxok & Hv)|(Hlen & _)]; [|cbn in Hlen; lia].
-  inversion Hsg; subst sg'. split; [exact Hne|]. split; [exact Hxok|].
+  destruct Hd as [(sg' & Hsg & Hne & Hxok & Hv & Hform)|(Hlen & _)]; [|cbn in Hlen; lia].
+  inversion Hsg; subst sg'. split; [exact Hne|]. split; [exact Hxok|]. split; [exact Hform|].
   cbn [so_schnorr tx_sigops] in Hv. rewrite tx_schnorr_fresh in Hv.
   destruct (FRESH t sp idx (snd (schnorr_split sg))) as [d|] eqn:Ed; [|discriminate].
   exists d. auto.
